@@ -10,9 +10,8 @@ HARNESSES = [
     dict(name="disp", pkg="./internal/l2tp/", test="TestVerifC16Dispatch",
          files=[("internal/l2tp/zz_verif_c16_dispatch_test.go", "harness/C16/zz_verif_c16_dispatch_test.go")]),
 ]
-# "defective" differs from "repaired" only in the one finding still open (sccrq-copy-after-teardown: no record of
-# torn-down control connections); every fixed finding exists in one form only, so a regression to it is a VIOLATION
-VARIANTS = ["repaired", "defective"]
+# one model = what /repo HEAD does; every C16 finding is fixed (last: 1a77bf9), so a regression to any of them is a VIOLATION
+VARIANTS = ["repaired"]
 # the runner cases run on real timers: the model driver reads the observed write times and accepts them within a
 # tolerance around the runner_next-driven prediction (everything else is compared exactly)
 MODEL_NEEDS_IMPL = True
@@ -211,25 +210,19 @@ ESTAB = {"lns": ["sccrq", "scccn", "icrq", "iccn", "hello", "cdn", "stop"],
 
 def gen_estab(rng, n):
     """complete control connections through the real Dispatch with LATE COPIES of every establishment message in every
-    later state (also during/after teardown).  A copy of the SCCRQ after the teardown is only ever the last step."""
+    later state (also during and after teardown)."""
     out = []
     for role, base in ESTAB.items():
         # exhaustive: after every prefix, every earlier message once more (one case per state, all copies packed)
         for i in range(1, len(base) + 1):
             steps = list(base[:i])
-            closed = "stop" in steps
             for k in range(i):
-                if not (closed and role == "lns" and k == 0):
-                    steps.append("r%d" % k)
+                steps.append("r%d" % k)
             steps += base[i:]
             out.append("estab %s %s" % (role, " ".join(steps)))
-            if role == "lns" and closed:
-                out.append("estab %s %s r0" % (role, " ".join(base[:i])))
         # one copy at a time, at every later position
         for k in range(len(base)):
             for pos in range(k + 1, len(base) + 1):
-                if role == "lns" and k == 0 and pos == len(base):
-                    continue
                 out.append("estab %s %s" % (role, " ".join(base[:pos] + ["r%d" % k] + base[pos:])))
     for _ in range(n):
         role = rng.choice(["lns", "lac"])
@@ -243,14 +236,8 @@ def gen_estab(rng, n):
         for st in base:
             steps.append(st)
             sent += 1
-            closed = st == "stop"
             for _ in range(rng.choice([0, 0, 1, 2, 4])):
-                k = rng.randrange(sent)
-                if closed and role == "lns" and k == 0:
-                    continue
-                steps.append("r%d" % k)
-        if role == "lns" and base[-1] == "stop" and rng.random() < 0.5:
-            steps.append("r0")
+                steps.append("r%d" % rng.randrange(sent))
         out.append("estab %s %s" % (role, " ".join(steps)))
     return out
 
@@ -615,40 +602,8 @@ def classify(case, impl, model):
 
 
 def signature(case, impl, models):
-    if "defective" not in models:
-        return "none"
-    if case.startswith("estab"):
-        # only an SCCRQ copy (r0 on the LNS) after the teardown may be explained by the open finding
-        t = case.split()
-        if t[1] == "lns" and t[-1] == "r0" and "stop" in t and impl == models["defective"]:
-            return "sccrq-copy-after-teardown"
-        return "other:estab"
-    return "other:" + case.split()[0]
-    if case.startswith("sccrqdup"):
-        return "sccrq-retransmit-second-tunnel" if impl == models.get("defective") else "other:sccrqdup"
-    if case.startswith("stopccn"):
-        return "stopccn-never-acked" if impl == models.get("defective") else "other:stopccn"
-    if case.startswith("overlap"):
-        return "race-channel-goroutines" if impl == models.get("defective") else "other:overlap"
-    if case.startswith(("rws", "sccrq")):
-        # establishment path: the channel keeps the hard-coded window of runner.go instead of the advertised one
-        return "peer-rws-ignored" if impl == models.get("defective") else "other:rws"
-    d = first_diff(impl, models["repaired"])
-    if not d:
-        return "none"
-    _, ti, tm = d
-    try:
-        # first divergence is the delivery of a ZLB: same packets emitted, the implementation advanced Nr
-        # and/or armed its own ZLB timer as if the ZLB were a message
-        if ti.startswith("D0z") and tm.startswith("D0z") and ti.split("/")[0] == tm.split("/")[0]:
-            si = ti.rsplit("/", 1)[1].split(",")
-            sm = tm.rsplit("/", 1)[1].split(",")
-            same_but = [k for k in range(len(si)) if si[k] != sm[k]]
-            if set(same_but) <= {1, 6} and int(si[1]) in (int(sm[1]), (int(sm[1]) + 1) % 65536):
-                return "zlb-through-recv"
-    except (IndexError, ValueError):
-        pass
-    return "other:" + ti[:1]
+    # no finding is open: nothing can be explained away, every mismatch is a VIOLATION
+    return "none"
 
 
 def nontrivial(case, out):
